@@ -411,7 +411,20 @@ pub fn search_segments(out: &mut Vec<Finding>) {
             let ip = iri::Path::new(t).unwrap();
             let ifwd: Vec<Vec<u8>> = ip.segments().map(|x| x.as_bytes().to_vec()).collect();
             let ins: Vec<Vec<u8>> = ip.normalized_segments().map(|x| x.as_bytes().to_vec()).collect();
+            let q = |f: Option<&[u8]>| f.map(|x| x.to_vec());
+            // every query of both families, in one comparable row: [first, last, file_name, parent] + directory, parent_or_empty, flags, count
+            let urow = (
+                vec![q(p.first().map(|x| x.as_bytes())), q(p.last().map(|x| x.as_bytes())), q(p.file_name().map(|x| x.as_bytes())), q(p.parent().map(|x| x.as_bytes()))],
+                p.directory().as_bytes().to_vec(), p.parent_or_empty().as_bytes().to_vec(), p.is_empty(), p.is_absolute(), p.is_relative(), p.segment_count(),
+            );
+            let mut ibwd: Vec<Vec<u8>> = ip.segments().rev().map(|x| x.as_bytes().to_vec()).collect();
+            ibwd.reverse();
+            let irow = (
+                vec![q(ip.first().map(|x| x.as_bytes())), q(ip.last().map(|x| x.as_bytes())), q(ip.file_name().map(|x| x.as_bytes())), q(ip.parent().map(|x| x.as_bytes()))],
+                ip.directory().as_bytes().to_vec(), ip.parent_or_empty().as_bytes().to_vec(), ip.is_empty(), ip.is_absolute(), ip.is_relative(), ip.segment_count(),
+            );
             (
+                urow, irow, ibwd, ip.normalized_segments().len(),
                 fwd, bwd, front, ns, nlen, ifwd, ins,
                 p.first().map(|x| x.as_bytes().to_vec()), p.last().map(|x| x.as_bytes().to_vec()), p.file_name().map(|x| x.as_bytes().to_vec()),
                 p.directory().as_bytes().to_vec(), p.is_empty(), p.is_absolute(), p.segment_count(),
@@ -422,7 +435,7 @@ pub fn search_segments(out: &mut Vec<Finding>) {
         let mut bad: Option<(String, String, String)> = None;
         match r {
             None => bad = Some(("segment iteration / path queries panic".into(), "panic".into(), "no panic".into())),
-            Some((fwd, bwd, mixed, ns, nlen, ifwd, ins, first, last, fname, dir, empty, isabs, count)) => {
+            Some((urow, irow, ibwd, inlen, fwd, bwd, mixed, ns, nlen, ifwd, ins, first, last, fname, dir, empty, isabs, count)) => {
                 let sh = |v: &Vec<Vec<u8>>| format!("{:?}", v.iter().map(|x| lossy(x)).collect::<Vec<_>>());
                 let dir_exp: Vec<u8> = match s.iter().rposition(|c| *c == b'/') {
                     Some(k) => s[..k + 1].to_vec(),
@@ -443,6 +456,29 @@ pub fn search_segments(out: &mut Vec<Finding>) {
                 else if empty != lv.is_empty() { bad = Some(("is_empty()".into(), empty.to_string(), lv.is_empty().to_string())); }
                 else if isabs != abs { bad = Some(("is_absolute()".into(), isabs.to_string(), abs.to_string())); }
                 else if count != lv.len() { bad = Some(("segment_count()".into(), count.to_string(), lv.len().to_string())); }
+                else {
+                    // the whole row of queries, both families, against the '/'-split: parent = the text before the last '/'
+                    // ("/" when that is the leading one, "/./" for "//x", None without a '/' or without a segment), parent_or_empty = that or ""/"/"
+                    let parent_exp: Option<Vec<u8>> = match s.iter().rposition(|c| *c == b'/') {
+                        _ if lv.is_empty() => None,
+                        None => None,
+                        Some(0) => Some(b"/".to_vec()),
+                        Some(1) if s[0] == b'/' => Some(b"/./".to_vec()),
+                        Some(k) => Some(s[..k].to_vec()),
+                    };
+                    let poe_exp: Vec<u8> = parent_exp.clone().unwrap_or(if abs { b"/".to_vec() } else { vec![] });
+                    let exp = (
+                        vec![lv.first().cloned(), lv.last().cloned(), l.last().filter(|x| !x.is_empty()).map(|x| x.to_vec()), parent_exp],
+                        dir_exp.clone(), poe_exp, lv.is_empty(), abs, !abs, lv.len(),
+                    );
+                    let show = |r: &(Vec<Option<Vec<u8>>>, Vec<u8>, Vec<u8>, bool, bool, bool, usize)| format!(
+                        "first {:?} last {:?} file_name {:?} parent {:?} directory {:?} parent_or_empty {:?} is_empty {} is_absolute {} is_relative {} segment_count {}",
+                        r.0[0].as_ref().map(|x| lossy(x)), r.0[1].as_ref().map(|x| lossy(x)), r.0[2].as_ref().map(|x| lossy(x)), r.0[3].as_ref().map(|x| lossy(x)), lossy(&r.1), lossy(&r.2), r.3, r.4, r.5, r.6);
+                    if urow != exp { bad = Some(("path queries (uri::Path)".into(), show(&urow), show(&exp))); }
+                    else if irow != exp { bad = Some(("path queries (iri::Path)".into(), show(&irow), show(&exp))); }
+                    else if ibwd != lv { bad = Some(("iri segments() backward".into(), sh(&ibwd), join_show(&l))); }
+                    else if inlen != nv.len() { bad = Some(("iri normalized_segments().len()".into(), inlen.to_string(), nv.len().to_string())); }
+                }
             }
         }
         if let Some((what, real, expected)) = bad {
@@ -1237,6 +1273,7 @@ pub fn search_pct(out: &mut Vec<Finding>) {
         let r = guarded(move || {
             let mut v: Vec<(&'static str, String, String, usize)> = vec![];
             let t = std::str::from_utf8(&s2).unwrap().to_string();
+            let t = t.as_str();
             if let Ok(x) = uri::Query::new(&s2) { let p = x.as_pct_str(); v.push(("uri::Query", p.as_str().to_string(), p.decode(), p.len())); }
             if let Ok(x) = uri::Fragment::new(&s2) { let p = x.as_pct_str(); v.push(("uri::Fragment", p.as_str().to_string(), p.decode(), p.len())); }
             if let Ok(x) = uri::Segment::new(&s2) { let p = x.as_pct_str(); v.push(("uri::Segment", p.as_str().to_string(), p.decode(), p.len())); }
@@ -1247,6 +1284,15 @@ pub fn search_pct(out: &mut Vec<Finding>) {
             if let Ok(x) = iri::Segment::new(&t) { let p = x.as_pct_str(); v.push(("iri::Segment", p.as_str().to_string(), p.decode(), p.len())); }
             if let Ok(x) = iri::Host::new(&t) { let p = x.as_pct_str(); v.push(("iri::Host", p.as_str().to_string(), p.decode(), p.len())); }
             if let Ok(x) = iri::UserInfo::new(&t) { let p = x.as_pct_str(); v.push(("iri::UserInfo", p.as_str().to_string(), p.decode(), p.len())); }
+            // the owned types: into_pct_string keeps the text
+            if let Ok(x) = uri::Query::new(&s2) { let p = x.to_owned().into_pct_string(); v.push(("uri::QueryBuf::into_pct_string", p.as_str().to_string(), p.decode(), p.len())); }
+            if let Ok(x) = uri::Fragment::new(&s2) { let p = x.to_owned().into_pct_string(); v.push(("uri::FragmentBuf::into_pct_string", p.as_str().to_string(), p.decode(), p.len())); }
+            if let Ok(x) = uri::Host::new(&s2) { let p = x.to_owned().into_pct_string(); v.push(("uri::HostBuf::into_pct_string", p.as_str().to_string(), p.decode(), p.len())); }
+            if let Ok(x) = uri::UserInfo::new(&s2) { let p = x.to_owned().into_pct_string(); v.push(("uri::UserInfoBuf::into_pct_string", p.as_str().to_string(), p.decode(), p.len())); }
+            if let Ok(x) = iri::Query::new(&t) { let p = x.to_owned().into_pct_string(); v.push(("iri::QueryBuf::into_pct_string", p.as_str().to_string(), p.decode(), p.len())); }
+            if let Ok(x) = iri::Fragment::new(&t) { let p = x.to_owned().into_pct_string(); v.push(("iri::FragmentBuf::into_pct_string", p.as_str().to_string(), p.decode(), p.len())); }
+            if let Ok(x) = iri::Host::new(&t) { let p = x.to_owned().into_pct_string(); v.push(("iri::HostBuf::into_pct_string", p.as_str().to_string(), p.decode(), p.len())); }
+            if let Ok(x) = iri::UserInfo::new(&t) { let p = x.to_owned().into_pct_string(); v.push(("iri::UserInfoBuf::into_pct_string", p.as_str().to_string(), p.decode(), p.len())); }
             v
         });
         match r {
@@ -1257,7 +1303,7 @@ pub fn search_pct(out: &mut Vec<Finding>) {
             Some(v) => {
                 for (what, text, d, len) in v {
                     if text.as_bytes() != &s[..] || d != dec || len != dec.chars().count() {
-                        out.push(Finding { what: format!("{}::as_pct_str: the view is not the component's text / its percent-decoding", what), inputs: vec![s.clone()], real: format!("text {:?} decoded {:?} len {}", text, d, len), expected: format!("text {:?} decoded {:?} len {}", lossy(&s), dec, dec.chars().count()) });
+                        out.push(Finding { what: format!("{}: the percent-encoded view is not the component's text / its percent-decoding", what), inputs: vec![s.clone()], real: format!("text {:?} decoded {:?} len {}", text, d, len), expected: format!("text {:?} decoded {:?} len {}", lossy(&s), dec, dec.chars().count()) });
                         return;
                     }
                 }
